@@ -239,10 +239,52 @@ def judge_reader_case(case, out):
     out.obs = core.h64(repr((case.get("name"), segs, bufsize, len(got))))
 
 
+def judge_longhaul(case, out):
+    """
+    Deep histories: one wrapper consumes a long stream (beyond any internal 64 KiB threshold)
+    under a cyclic pattern of read sizes and receive sizes; every byte is compared.
+    """
+    from pyrtcm.socketwrapper import SocketWrapper  # pylint: disable=import-outside-toplevel
+
+    n, bufsize = case["n"], case["bufsize"]
+    src = bytes(((i * 131) ^ (i >> 8) ^ (i >> 16)) & 0xFF for i in range(n))
+    segs = case["segs"]
+    script = []
+    tot, k = 0, 0
+    while tot < n:
+        script.append(segs[k % len(segs)])
+        tot += min(segs[k % len(segs)], bufsize)
+        k += 1
+    sock = FakeSock(src, script=script, budget=4 * n + 64)
+    try:
+        wrap = SocketWrapper(sock, bufsize=bufsize)
+        pos, k, reads = 0, 0, case["reads"]
+        while pos < n:
+            want = min(reads[k % len(reads)], n - pos)
+            k += 1
+            got = wrap.read(want)
+            if got != src[pos : pos + want]:
+                where = next((i for i in range(min(len(got), want)) if got[i] != src[pos + i]),
+                             min(len(got), want))
+                out.bad("bytes-lost-duplicated-or-reordered:long-stream",
+                        f"{case['name']}: read({want}) at stream offset {pos} returned {len(got)} "
+                        f"bytes, first wrong byte at offset {pos + where}")
+                break
+            pos += want
+        out.extra["longhaul_bytes"] = pos
+    except NonTermination as err:
+        out.bad("nontermination", f"{case['name']}: {err}")
+    except Exception as err:  # pylint: disable=broad-except
+        out.bad("wrapper-raises", f"{case['name']}: {type(err).__name__}: {str(err)[:100]}")
+    out.obs = core.h64(repr(sorted(case.items(), key=str)))
+
+
 def judge(case):
     out = core.Outcome()
     if case["kind"] == "bfs":
         judge_bfs_case(case, out)
+    elif case["kind"] == "longhaul":
+        judge_longhaul(case, out)
     else:
         judge_reader_case(case, out)
     return out
@@ -278,6 +320,11 @@ def _work(item):
     kind, payload = item
     if kind == "bfs":
         return run_bfs(payload)
+    if kind == "longhaul":
+        st = core.Stats()
+        for case in payload:
+            st.add(case, judge(case), keep_sample=len(st.samples) < 1)
+        return st
     st = core.Stats()
     name, data, mode, arg, bufsizes = payload
     gen = compositions(len(data)) if mode == "comp" else placements(len(data), arg)
@@ -304,6 +351,23 @@ def plan(tier):
                              "ks": list(ks), "faults": faults, "lines": False}))
         work.append(("bfs", {"name": f"lines bufsize={bs}", "source": line_src, "bufsize": bs,
                              "ks": [1, 2], "faults": faults, "lines": True}))
+    # deep histories of one wrapper (70 000 / 200 000 bytes) and large reads fed byte by byte
+    lh = []
+    for n in ((70000,) if tier == "quick" else (70000, 140000, 200000)):
+        for bufsize in (4096, 1000, 65536, 7):
+            for reads in ([25], [1, 2, 3, 5, 25, 1000, 4096, 8191], [4096], [65536], [1]):
+                if reads == [1] and n > 70000:
+                    continue
+                for segs in ([bufsize], [1, 1500, 4096, 17]):
+                    lh.append({"kind": "longhaul", "name": f"n={n} bufsize={bufsize} reads={reads} "
+                               f"segs={segs}", "n": n, "bufsize": bufsize, "reads": reads, "segs": segs})
+    for k in (1023, 4096, 70000):
+        lh.append({"kind": "longhaul", "name": f"read({k}) over 1-byte receives", "n": k + 10,
+                   "bufsize": 1, "reads": [k, 10], "segs": [1]})
+        lh.append({"kind": "longhaul", "name": f"read({k}) over 1-byte segments", "n": k + 10,
+                   "bufsize": 4096, "reads": [k, 10], "segs": [1]})
+    for ch in core.chunks(lh, 3):
+        work.append(("longhaul", ch))
     # Part B
     alpha = items.wellformed("quick")
     seqs = []
